@@ -20,39 +20,40 @@ func init() { register("C03", c03r1, c03r2, c03r3, c03r4, c03r5, c03r6, c03r7) }
 func c03r1(c *Ctx) {
 	const rule = "C03-R1"
 	defer c03Timed(c, rule)()
-	c.Doc(rule, "T-MPT: in handleClientAuthentication every path to a success return passes a nil-error performAuthentication or an edge on which the client's OWN Authentication level (a.config / negotiation.ClientConfig) differs from REQUIRED; in handleServerAuthentication: a nil-error performAuthentication or the edge on which negotiation.Authentication (computed from the server's own level, C10-R1) is false")
+	c.Doc(rule, "T-MPT: in handleClientAuthentication every path to a success return passes a nil-error performAuthentication or an edge on which the client's OWN Authentication level (a.config / negotiation.ClientConfig) differs from REQUIRED; in handleServerAuthentication: a nil-error performAuthentication or the edge on which negotiation.Authentication (computed from the server's own level, C10-R1) is false Where a check, store or call is looked for, same-module helpers are followed to depth 4 (boolean predicates and value helpers with parameters mapped to arguments, same-package error-returning and effect helpers), and conditions materialised in local booleans are resolved per incoming value.")
 	A := c.handshakeAnchors(rule)
 	if !A.ok {
 		return
 	}
-	n := 0
 	for _, fn := range []*ssa.Function{A.hClient, A.hServer} {
 		role := A.roleOf(fn)
-		cuts := newCuts()
-		calls := callsIn(fn, A.perfAuth.Object())
+		calls := c03ReachCalls(c03Root(fn), A.perfAuth, nil)
 		if len(calls) == 0 {
 			c.Violate(rule, fnName(fn)+"#call:performAuthentication", "no call of performAuthentication", fn.Pos())
 		}
 		for _, cs := range calls {
-			succ, _, checked := callErrEdges(fn, cs.Value())
-			if !checked {
-				c.Violate(rule, fnName(fn)+"#call:performAuthentication", "the error result of performAuthentication is never tested", cs.Pos())
+			if _, _, checked := callErrEdges(cs.fr.fn, cs.call.Value()); !checked && !c03ErrReturned(cs.call) {
+				c.Violate(rule, fnName(fn)+"#call:performAuthentication", "the error result of performAuthentication is never tested", cs.call.Pos())
 			}
-			cuts.AddEdges(succ...)
 		}
-		notReq, _ := A.levelEdges(fn, A.cfgAuthentication, role)
-		cuts.AddEdges(notReq...)
 		what := "a successful performAuthentication or a test that the local policy does not require authentication"
 		if role == c03RoleServer {
-			off, _ := fieldCondEdges(fn, A.negAuthentication)
-			cuts.AddEdges(off...)
 			what = "a successful performAuthentication or the edge on which negotiation.Authentication is false"
 		}
-		tg := c.c03Success(fn)
-		n += len(tg)
-		c.mustPassReturns(rule, fn, tg, cuts, what)
+		mp := &c03MustPass{c: c, pkgOf: A.setup,
+			atom: func(fr *c03Frame, a Atom) (bool, bool) {
+				if t, f := A.notRequiredAtom(fr, a, A.cfgAuthentication); t || f {
+					return t, f
+				}
+				if role == c03RoleServer && a.Op == token.ILLEGAL && readsField(a.X, A.negAuthentication) {
+					return false, true
+				}
+				return false, false
+			},
+			calls: func(fr *c03Frame, call ssa.CallInstruction) bool { return calleeFn(call) == A.perfAuth }}
+		// (structural minimum: each phase has a way to succeed; not today's number of returns)
+		c.MinCount(rule, "success returns of "+fnName(fn), mp.check(rule, fn, "", what), 1)
 	}
-	c.MinCount(rule, "success returns of the two authentication phases", n, 4)
 }
 
 // ---------------------------------------------------------------------------
@@ -61,7 +62,7 @@ func c03r1(c *Ctx) {
 func c03r2(c *Ctx) {
 	const rule = "C03-R2"
 	defer c03Timed(c, rule)()
-	c.Doc(rule, "T-DOM + provenance: on the client the method handed to performAuthentication comes from the peer's GetInt through bitmaskToAuthMethod and the call is dominated by a test that the selection lies inside the mask sent with PutInt in that round (or the method is an element of a local list); on the server the method is the no-method constant or an element of the server's own AuthMethods selected under a test of the client's mask")
+	c.Doc(rule, "T-DOM + provenance: on the client the method handed to performAuthentication comes from the peer's GetInt through bitmaskToAuthMethod and the call is dominated by a test that the selection lies inside the mask sent with PutInt in that round (or the method is an element of a local list); on the server the method is the no-method constant or an element of the server's own AuthMethods selected under a test of the client's mask Where a check, store or call is looked for, same-module helpers are followed to depth 4 (boolean predicates and value helpers with parameters mapped to arguments, same-package error-returning and effect helpers), and conditions materialised in local booleans are resolved per incoming value.")
 	A := c.handshakeAnchors(rule)
 	if !A.ok {
 		return
@@ -71,26 +72,52 @@ func c03r2(c *Ctx) {
 	if getInt == nil || putInt == nil {
 		return
 	}
-	n := 0
+	// functions kept as leaves when values are followed: the bit<->method maps and the peer read
+	isGetInt := func(call ssa.CallInstruction) bool {
+		o := calleeObj(call)
+		return o != nil && types.Object(o) == getInt
+	}
+	stop := func(g *ssa.Function) bool {
+		return g == A.bitToMethod || g == A.methodToBit || (g.Object() != nil && g.Object() == getInt)
+	}
+	// fromPeer: every origin of v (helpers followed) is result #0 of a GetInt; returns that single read
+	fromPeer := func(fr *c03Frame, v ssa.Value) (c03Leaf, bool) {
+		var first c03Leaf
+		os := c03OriginsF(fr, stripConv(v), stop)
+		for i, lf := range os {
+			if pc, pi := originCall(lf.v); pc == nil || pi != 0 || !isGetInt(pc) {
+				return c03Leaf{}, false
+			}
+			if i == 0 {
+				first = lf
+			} else if lf != first {
+				return c03Leaf{}, false
+			}
+		}
+		return first, len(os) > 0
+	}
 	// --- client
 	fn := A.hClient
-	masks := map[ssa.Value]bool{}
-	for _, cs := range callsIn(fn, putInt) {
-		v := stripConv(callArgs(cs)[2])
+	root := c03Root(fn)
+	var masks []c03Leaf // the (non-constant) values sent with PutInt, in the frame that sends them
+	for _, cs := range c03ReachCallsObj(root, putInt, nil) {
+		v := stripConv(callArgs(cs.call)[2])
 		if _, isConst := v.(*ssa.Const); !isConst {
-			masks[v] = true
+			masks = append(masks, c03Leaf{cs.fr, v})
 		}
 	}
-	for i, cs := range callsIn(fn, A.perfAuth.Object()) {
-		n++
+	nClient := 0
+	for i, cs := range c03ReachCalls(root, A.perfAuth, nil) {
+		nClient++
 		construct := fmt.Sprintf("%s#performAuthentication%d(method)", fnName(fn), i+1)
-		method := callArgs(cs)[2]
+		method := callArgs(cs.call)[2]
 		status, msg := StOK, "the method run is bound to the mask this client sent"
-		for _, o := range origins(fn, method) {
+		for _, lf := range c03OriginsF(cs.fr, method, stop) {
+			o := lf.v
 			if call, idx := originCall(o); call != nil && idx == 0 && calleeFn(call) == A.bitToMethod {
-				resp := stripConv(call.Common().Args[0])
 				// the selection must be peer data (GetInt) - otherwise nothing to sanitise
-				if pc, pi := originCall(resp); pc == nil || pi != 0 || calleeObj(pc) != getInt {
+				resp, ok := fromPeer(lf.fr, call.Common().Args[0])
+				if !ok {
 					status, msg = StUndecided, "the value converted by bitmaskToAuthMethod is not the GetInt result: cannot follow the selection"
 					break
 				}
@@ -98,13 +125,19 @@ func c03r2(c *Ctx) {
 					status, msg = StUndecided, "cannot find the mask the client sends (non-constant PutInt argument)"
 					break
 				}
-				dominated := false
-				for _, e := range c03SubsetEdges(fn, resp, masks) {
-					if instrDominatedByEdge(fn, e, cs) {
-						dominated = true
-					}
-				}
-				if !dominated {
+				mp := &c03MustPass{c: c, pkgOf: A.setup, atom: func(fr *c03Frame, a Atom) (bool, bool) {
+					return c03SubsetAtom(fr, a,
+						func(fr *c03Frame, v ssa.Value) bool { return c03SameValueStop(fr, v, resp.fr, resp.v, stop) },
+						func(fr *c03Frame, v ssa.Value) bool {
+							for _, m := range masks {
+								if c03SameValueStop(fr, v, m.fr, m.v, stop) {
+									return true
+								}
+							}
+							return false
+						})
+				}}
+				if !mp.dominates(cs.fr, cs.call) {
 					status, msg = StViolated, "the client runs whatever method bit the server names: no test that the selection lies inside the mask the client sent dominates performAuthentication (a server can select a method that was never offered)"
 					break
 				}
@@ -112,7 +145,7 @@ func c03r2(c *Ctx) {
 			}
 			// element of a local list
 			if ld, ok := o.(*ssa.UnOp); ok && ld.Op == token.MUL {
-				if ia, ok := ld.X.(*ssa.IndexAddr); ok && c03LocalList(fn, A, ia.X) {
+				if ia, ok := ld.X.(*ssa.IndexAddr); ok && A.localLevelListF(lf.fr, ia.X, c03RoleClient) {
 					continue
 				}
 			}
@@ -121,22 +154,25 @@ func c03r2(c *Ctx) {
 		}
 		switch status {
 		case StOK:
-			c.Ok(rule, construct, msg, cs.Pos())
+			c.Ok(rule, construct, msg, cs.call.Pos())
 		case StViolated:
-			c.Violate(rule, construct, msg, cs.Pos())
+			c.Violate(rule, construct, msg, cs.call.Pos())
 		default:
-			c.Undecided(rule, construct, msg, cs.Pos())
+			c.Undecided(rule, construct, msg, cs.call.Pos())
 		}
 	}
 	// --- server
 	fn = A.hServer
-	for i, cs := range callsIn(fn, A.perfAuth.Object()) {
-		n++
+	root = c03Root(fn)
+	nServer := 0
+	for i, cs := range c03ReachCalls(root, A.perfAuth, nil) {
+		nServer++
 		construct := fmt.Sprintf("%s#performAuthentication%d(method)", fnName(fn), i+1)
-		method := callArgs(cs)[2]
+		method := callArgs(cs.call)[2]
 		status, msg := StOK, "the method run is the server's own list entry selected under the client's mask"
 		elems := 0
-		for _, o := range origins(fn, method) {
+		for _, lf := range c03OriginsF(cs.fr, method, stop) {
+			o := lf.v
 			if s, ok := constString(o); ok && s == A.authNone {
 				continue
 			}
@@ -145,14 +181,15 @@ func c03r2(c *Ctx) {
 			if ok && ld.Op == token.MUL {
 				ia, _ = ld.X.(*ssa.IndexAddr)
 			}
-			if ia == nil || !A.localLevelList(fn, ia.X, c03RoleServer) {
+			if ia == nil || !A.localLevelListF(lf.fr, ia.X, c03RoleServer) {
 				status, msg = StViolated, "the method the server runs is not taken from its own AuthMethods list"
 				break
 			}
 			elems++
-			// selected under (clientMask & authMethodToBitmask(elem)) != 0
+			// selected under (clientMask & authMethodToBitmask(elem)) != 0, in the function that reads the element
+			f := lf.fr.fn
 			guarded := false
-			for _, b := range fn.Blocks {
+			for _, b := range f.Blocks {
 				ifi := blockIf(b)
 				if ifi == nil {
 					continue
@@ -174,26 +211,24 @@ func c03r2(c *Ctx) {
 				if bit == nil {
 					continue
 				}
-				if pc, pi := originCall(stripConv(mask)); pc == nil || pi != 0 || calleeObj(pc) != getInt {
+				if _, ok := fromPeer(lf.fr, mask); !ok {
 					continue
 				}
 				member := Edge{b, 0}
 				if (a.Op == token.EQL) != a.Neg {
 					member = Edge{b, 1}
 				}
-				// the element reaches the call only through the membership edge: removing it must
-				// leave only the no-method constant
-				phiOK := true
-				if phi, isPhi := stripConv(method).(*ssa.Phi); isPhi {
-					for j, e := range phi.Edges {
-						if stripConv(e) == ssa.Value(ld) && !edgeDominates(fn, member, phi.Block().Preds[j]) && phi.Block().Preds[j] != member.To() {
-							phiOK = false
-						}
+				// the element leaves the place where it is read - towards a phi, a return of the
+				// helper, the call itself - only through the membership edge
+				carriedOK, carried := true, 0
+				cut := newCuts().AddEdges(member)
+				for _, tg := range c03Carriers(ld, cs.call) {
+					carried++
+					if findPath(entryPoint(f), tg, cut) != nil {
+						carriedOK = false
 					}
-				} else if !instrDominatedByEdge(fn, member, cs) {
-					phiOK = false
 				}
-				if phiOK {
+				if carriedOK && carried > 0 {
 					guarded = true
 				}
 			}
@@ -207,30 +242,66 @@ func c03r2(c *Ctx) {
 		}
 		switch status {
 		case StOK:
-			c.Ok(rule, construct, msg, cs.Pos())
+			c.Ok(rule, construct, msg, cs.call.Pos())
 		case StViolated:
-			c.Violate(rule, construct, msg, cs.Pos())
+			c.Violate(rule, construct, msg, cs.call.Pos())
 		default:
-			c.Undecided(rule, construct, msg, cs.Pos())
+			c.Undecided(rule, construct, msg, cs.call.Pos())
 		}
 	}
-	c.MinCount(rule, "performAuthentication call sites", n, 2)
+	// (structural minimum: each side runs its method through performAuthentication at least once)
+	c.MinCount(rule, "performAuthentication call sites of the client phase", nClient, 1)
+	c.MinCount(rule, "performAuthentication call sites of the server phase", nServer, 1)
 }
 
-// c03LocalList: v is a slice built in fn from elements of the local AuthMethods (clientMethods) or the list itself.
-func c03LocalList(fn *ssa.Function, A *c03Anchors, v ssa.Value) bool {
-	return A.localLevelList(fn, v, A.roleOf(fn))
+// c03Carriers: the points through which value v is handed on inside its function: the incoming edges
+// of phis it feeds, the returns it is a result of, and call `consumer` if v is one of its arguments
+// (conversions looked through). Other uses (operands of tests, of the bit conversion) carry nothing on.
+func c03Carriers(v ssa.Value, consumer ssa.CallInstruction) []Target {
+	var out []Target
+	seen := map[ssa.Value]bool{}
+	var walk func(v ssa.Value)
+	walk = func(v ssa.Value) {
+		if seen[v] || v.Referrers() == nil {
+			return
+		}
+		seen[v] = true
+		for _, r := range *v.Referrers() {
+			switch x := r.(type) {
+			case *ssa.Phi:
+				for j, e := range x.Edges {
+					if e == v && len(x.Block().Instrs) > 0 {
+						out = append(out, Target{Instr: x.Block().Instrs[0], Pred: x.Block().Preds[j]})
+					}
+				}
+			case *ssa.Return:
+				out = append(out, Target{Instr: x})
+			case *ssa.ChangeType:
+				walk(x)
+			case *ssa.MakeInterface:
+				walk(x)
+			case *ssa.ChangeInterface:
+				walk(x)
+			case ssa.CallInstruction:
+				if x == consumer {
+					out = append(out, Target{Instr: x})
+				}
+			}
+		}
+	}
+	walk(v)
+	return out
 }
 
-// localLevelList: every origin of the slice v is a load of the local policy's AuthMethods.
-func (A *c03Anchors) localLevelList(fn *ssa.Function, v ssa.Value, role int) bool {
-	os := origins(fn, stripConv(v))
+// localLevelListF: every origin of the slice v (helpers followed) is a load of the local policy's AuthMethods.
+func (A *c03Anchors) localLevelListF(fr *c03Frame, v ssa.Value, role int) bool {
+	os := c03OriginsF(fr, stripConv(v), nil)
 	if len(os) == 0 {
 		return false
 	}
-	for _, o := range os {
-		base, ok := c03LoadOf(o, A.cfgAuthMethods)
-		if !ok || !A.localCfg(fn, base, role) {
+	for _, lf := range os {
+		base, ok := c03LoadOf(lf.v, A.cfgAuthMethods)
+		if !ok || !A.localCfgF(lf.fr, base, role) {
 			return false
 		}
 	}
@@ -347,17 +418,16 @@ func c03InstrLabel(in ssa.Instruction) string {
 func c03r3(c *Ctx) {
 	const rule = "C03-R3"
 	defer c03Timed(c, rule)()
-	c.Doc(rule, "T-MPT: in setupStreamEncryption, the two resumption functions and the two full handshakes, every path to a success return passes a store of a.stream.IsEncrypted() to negotiation.Encryption (directly or through a same-package helper that does so on all of its success returns), and nothing that can change the flag or the stream's key state (another store to the field, SetSymmetricKey/SetEncrypted, a helper doing either) happens between the last such store and the return")
+	c.Doc(rule, "T-MPT: in setupStreamEncryption, the two resumption functions and the two full handshakes, every path to a success return passes a store of a.stream.IsEncrypted() to negotiation.Encryption (directly or through a same-package helper that does so on all of its success returns), and nothing that can change the flag or the stream's key state (another store to the field, SetSymmetricKey/SetEncrypted, a helper doing either) happens between the last such store and the return Where a check, store or call is looked for, same-module helpers are followed to depth 4 (boolean predicates and value helpers with parameters mapped to arguments, same-package error-returning and effect helpers), and conditions materialised in local booleans are resolved per incoming value.")
 	A := c.handshakeAnchors(rule)
 	if !A.ok {
 		return
 	}
 	k := &c03Enc{c: c, A: A, memo: map[*ssa.Function]*c03EncSum{}}
-	n := 0
 	for _, fn := range []*ssa.Function{A.setup, A.resumeC, A.resumeS, A.fullClient, A.fullServer} {
 		cuts, dirty := k.analyse(fn, InlineDepth)
 		tg := c.c03Success(fn)
-		n += len(tg)
+		c.MinCount(rule, "success returns of "+fnName(fn), len(tg), 1)
 		c.mustPassReturns(rule, fn, tg, cuts, "a copy of a.stream.IsEncrypted() into negotiation.Encryption")
 		seen := map[string]int{}
 		for _, d := range dirty {
@@ -378,7 +448,6 @@ func c03r3(c *Ctx) {
 			}
 		}
 	}
-	c.MinCount(rule, "success returns checked", n, 7)
 }
 
 // ---------------------------------------------------------------------------
@@ -387,23 +456,27 @@ func c03r3(c *Ctx) {
 func c03r4(c *Ctx) {
 	const rule = "C03-R4"
 	defer c03Timed(c, rule)()
-	c.Doc(rule, "T-MPT: in both full handshakes and both resumption functions every path to a success return passes, for the local Encryption level and for the local Integrity level separately, an edge on which that level differs from REQUIRED or an edge on which the stream is known to encrypt (nil-error SetSymmetricKey, a true test of a.stream.IsEncrypted() or of the flag just copied from it); same-package helpers are inlined")
+	c.Doc(rule, "T-MPT: in both full handshakes and both resumption functions every path to a success return passes, for the local Encryption level and for the local Integrity level separately, an edge on which that level differs from REQUIRED or an edge on which the stream is known to encrypt (nil-error SetSymmetricKey, a true test of a.stream.IsEncrypted() or of the flag just copied from it); same-package helpers are inlined Where a check, store or call is looked for, same-module helpers are followed to depth 4 (boolean predicates and value helpers with parameters mapped to arguments, same-package error-returning and effect helpers), and conditions materialised in local booleans are resolved per incoming value.")
 	A := c.handshakeAnchors(rule)
 	if !A.ok {
 		return
 	}
-	n := 0
+	A.enc = &c03Enc{c: c, A: A, memo: map[*ssa.Function]*c03EncSum{}}
 	for _, lvl := range []*types.Var{A.cfgEncryption, A.cfgIntegrity} {
 		lvl := lvl
-		mp := &c03MustPass{c: c, pkgOf: A.setup, edges: func(f *ssa.Function) []Edge {
-			notReq, _ := A.levelEdges(f, lvl, A.roleOf(f))
-			return append(notReq, A.encKnownEdges(f)...)
-		}}
+		mp := &c03MustPass{c: c, pkgOf: A.setup,
+			atom: func(fr *c03Frame, a Atom) (bool, bool) {
+				if t, f := A.notRequiredAtom(fr, a, lvl); t || f {
+					return t, f
+				}
+				return a.Op == token.ILLEGAL && A.isStreamState(fr.fn, a.X), false
+			},
+			edges: A.setKeyEdges}
 		for _, fn := range []*ssa.Function{A.fullClient, A.fullServer, A.resumeC, A.resumeS} {
-			n += mp.check(rule, fn, lvl.Name(), "a test that the local "+lvl.Name()+" level is not REQUIRED or that the stream is encrypting")
+			k := mp.check(rule, fn, lvl.Name(), "a test that the local "+lvl.Name()+" level is not REQUIRED or that the stream is encrypting")
+			c.MinCount(rule, "success returns of "+fnName(fn)+" ["+lvl.Name()+"]", k, 1)
 		}
 	}
-	c.MinCount(rule, "success returns x levels checked", n, 8)
 }
 
 // ---------------------------------------------------------------------------
@@ -412,35 +485,45 @@ func c03r4(c *Ctx) {
 func c03r5(c *Ctx) {
 	const rule = "C03-R5"
 	defer c03Timed(c, rule)()
-	c.Doc(rule, "store/edge analysis in the two authentication phases: a success return reached without a nil-error performAuthentication passes a fact negotiation.Authentication==false (false edge of its test, or a store of false); after a nil-error performAuthentication every success return passes a store of true (or the call is dominated by the true edge of the flag's test and the flag is not reassigned) and a store of the very method value that ran into negotiation.NegotiatedAuth; the callers do not overwrite either field afterwards")
+	c.Doc(rule, "store/edge analysis in the two authentication phases: a success return reached without a nil-error performAuthentication passes a fact negotiation.Authentication==false (false edge of its test, or a store of false); after a nil-error performAuthentication every success return passes a store of true (or the call is dominated by the true edge of the flag's test and the flag is not reassigned) and a store of the very method value that ran into negotiation.NegotiatedAuth; the callers do not overwrite either field afterwards Where a check, store or call is looked for, same-module helpers are followed to depth 4 (boolean predicates and value helpers with parameters mapped to arguments, same-package error-returning and effect helpers), and conditions materialised in local booleans are resolved per incoming value.")
 	A := c.handshakeAnchors(rule)
 	if !A.ok {
 		return
 	}
-	n := 0
+	skipPerf := func(g *ssa.Function) bool { return g == A.perfAuth }
 	for _, fn := range []*ssa.Function{A.hClient, A.hServer} {
+		root := c03Root(fn)
 		tg := c.c03Success(fn)
-		stores := c03StoresTo(fn, A.negAuthentication)
-		var storeTrue, storeFalse, storeOther []ssa.Instruction
+		// the stores may sit in helpers of the phase (effect helper)
+		stores := c03ReachStores(root, A.negAuthentication, skipPerf)
+		nFalse, nOther := 0, 0
 		for _, s := range stores {
-			if b, ok := constBool(s.Val); ok && b {
-				storeTrue = append(storeTrue, s)
-			} else if ok {
-				storeFalse = append(storeFalse, s)
-			} else {
-				storeOther = append(storeOther, s)
+			if _, ok := constBool(s.st.Val); !ok {
+				nOther++
+				c.Undecided(rule, fnName(fn)+"#store:Authentication", "negotiation.Authentication is assigned a non-constant value in an authentication phase: cannot relate it to what ran", s.st.Pos())
+			} else if b, _ := constBool(s.st.Val); !b {
+				nFalse++
 			}
 		}
-		for _, s := range storeOther {
-			c.Undecided(rule, fnName(fn)+"#store:Authentication", "negotiation.Authentication is assigned a non-constant value in an authentication phase: cannot relate it to what ran", s.Pos())
+		constStores := func(want bool) func(fr *c03Frame) []ssa.Instruction {
+			return func(fr *c03Frame) []ssa.Instruction {
+				var out []ssa.Instruction
+				for _, s := range c03StoresTo(fr.fn, A.negAuthentication) {
+					if b, ok := constBool(s.Val); ok && b == want {
+						out = append(out, s)
+					}
+				}
+				return out
+			}
 		}
-		off, on := fieldCondEdges(fn, A.negAuthentication)
+		isPerf := func(fr *c03Frame, call ssa.CallInstruction) bool { return calleeFn(call) == A.perfAuth }
 		// (a) paths without authentication report false
-		cuts := newCuts().AddEdges(off...).AddInstrs(storeFalse...)
-		for _, cs := range callsIn(fn, A.perfAuth.Object()) {
-			succ, _, _ := callErrEdges(fn, cs.Value())
-			cuts.AddEdges(succ...)
-		}
+		mpA := &c03MustPass{c: c, pkgOf: A.setup,
+			atom: func(fr *c03Frame, a Atom) (bool, bool) {
+				return false, a.Op == token.ILLEGAL && readsField(a.X, A.negAuthentication)
+			},
+			instrs: constStores(false), calls: isPerf}
+		cuts := mpA.cutsF(root)
 		var wit []*ssa.BasicBlock
 		var pos token.Pos
 		for _, t := range tg {
@@ -449,88 +532,88 @@ func c03r5(c *Ctx) {
 				break
 			}
 		}
-		n++
 		if wit == nil {
 			c.Ok(rule, fnName(fn)+"#no-auth=>false", "a success return without authentication is preceded by Authentication==false", fn.Pos())
 		} else {
 			c.Violate(rule, fnName(fn)+"#no-auth=>false", "a success return is reachable without any authentication while negotiation.Authentication keeps whatever the negotiation computed (it can be true: the endpoint reports an authentication that never ran)", pos, c.describePath(wit)...)
 		}
 		// (b), (c) after a successful authentication
-		for i, cs := range callsIn(fn, A.perfAuth.Object()) {
-			succ, _, _ := callErrEdges(fn, cs.Value())
-			method := stripConv(callArgs(cs)[2])
-			var methodStores []ssa.Instruction
-			for _, s := range c03StoresTo(fn, A.negNegotiatedAuth) {
-				if stripConv(s.Val) == method {
-					methodStores = append(methodStores, s)
-				}
-			}
-			gated := false
-			for _, e := range on {
-				if instrDominatedByEdge(fn, e, cs) && len(storeFalse) == 0 && len(storeOther) == 0 {
-					gated = true
-				}
-			}
-			for _, e := range succ {
-				if len(e.To().Instrs) == 0 {
-					continue
-				}
-				n++
-				start := Point{e.To(), 0}
-				var w1, w2 []*ssa.BasicBlock
-				for _, t := range tg {
-					if !gated {
-						if p := findPath(start, t.Target(), newCuts().AddInstrs(storeTrue...)); p != nil {
-							w1 = p
-						}
-					}
-					if p := findPath(start, t.Target(), newCuts().AddInstrs(methodStores...)); p != nil {
-						w2 = p
+		nPerf := 0
+		for i, cs := range c03ReachCalls(root, A.perfAuth, nil) {
+			method := callArgs(cs.call)[2]
+			mpTrue := &c03MustPass{c: c, pkgOf: A.setup, instrs: constStores(true)}
+			mpMethod := &c03MustPass{c: c, pkgOf: A.setup, instrs: func(fr *c03Frame) []ssa.Instruction {
+				var out []ssa.Instruction
+				for _, s := range c03StoresTo(fr.fn, A.negNegotiatedAuth) {
+					if c03SameValue(fr, s.Val, cs.fr, method) {
+						out = append(out, s)
 					}
 				}
-				k1 := fmt.Sprintf("%s#performAuthentication%d-ok=>Authentication=true", fnName(fn), i+1)
-				if w1 == nil {
-					c.Ok(rule, k1, "after a successful authentication the flag is true on every success return", cs.Pos())
-				} else {
-					c.Violate(rule, k1, "after a successful performAuthentication a success return is reachable without negotiation.Authentication being true: the endpoint authenticated but reports Authentication=false (its own level was OPTIONAL/NEVER, or PREFERRED without a locally computed method)", cs.Pos(), c.describePath(w1)...)
-				}
-				k2 := fmt.Sprintf("%s#performAuthentication%d-ok=>NegotiatedAuth=method", fnName(fn), i+1)
-				if w2 == nil {
-					c.Ok(rule, k2, "the reported method is the method that ran", cs.Pos())
-				} else {
-					c.Violate(rule, k2, "after a successful performAuthentication a success return is reachable without storing the method that ran into negotiation.NegotiatedAuth", cs.Pos(), c.describePath(w2)...)
-				}
+				return out
+			}}
+			// gated: the call is only reached with the flag known true (and the phase never clears it)
+			gated := nFalse == 0 && nOther == 0 && (&c03MustPass{c: c, pkgOf: A.setup, atom: func(fr *c03Frame, a Atom) (bool, bool) {
+				return a.Op == token.ILLEGAL && readsField(a.X, A.negAuthentication), false
+			}}).dominates(cs.fr, cs.call)
+			starts := c03AfterSuccess(cs.fr.fn, cs.call)
+			if len(starts) == 0 {
+				continue
+			}
+			nPerf += len(starts)
+			var w1, w2 []*ssa.BasicBlock
+			if !gated {
+				w1 = mpTrue.afterMustPass(cs.fr, starts)
+			}
+			w2 = mpMethod.afterMustPass(cs.fr, starts)
+			k1 := fmt.Sprintf("%s#performAuthentication%d-ok=>Authentication=true", fnName(fn), i+1)
+			if w1 == nil {
+				c.Ok(rule, k1, "after a successful authentication the flag is true on every success return", cs.call.Pos())
+			} else {
+				c.Violate(rule, k1, "after a successful performAuthentication a success return is reachable without negotiation.Authentication being true: the endpoint authenticated but reports Authentication=false (its own level was OPTIONAL/NEVER, or PREFERRED without a locally computed method)", cs.call.Pos(), c.describePath(w1)...)
+			}
+			k2 := fmt.Sprintf("%s#performAuthentication%d-ok=>NegotiatedAuth=method", fnName(fn), i+1)
+			if w2 == nil {
+				c.Ok(rule, k2, "the reported method is the method that ran", cs.call.Pos())
+			} else {
+				c.Violate(rule, k2, "after a successful performAuthentication a success return is reachable without storing the method that ran into negotiation.NegotiatedAuth", cs.call.Pos(), c.describePath(w2)...)
 			}
 		}
+		// (structural minimum: the phase has a point at which performAuthentication has succeeded)
+		c.MinCount(rule, "successful-performAuthentication points of "+fnName(fn), nPerf, 1)
 	}
-	// the callers do not overwrite the two fields after the authentication phase
+	// the callers do not overwrite the two fields after the authentication phase (the phase may be
+	// called from a helper of the handshake: then nothing after it in the helper, nor after the helper
+	// in its caller, may write them)
 	writers := c03FieldWriters(c, A, A.negAuthentication, A.negNegotiatedAuth)
 	for _, pair := range [][2]*ssa.Function{{A.fullClient, A.hClient}, {A.fullServer, A.hServer}} {
 		fn, phase := pair[0], pair[1]
-		for _, cs := range callsIn(fn, phase.Object()) {
-			n++
+		nPhase := 0
+		for _, cs := range c03ReachCalls(c03Root(fn), phase, nil) {
+			nPhase++
 			bad := ""
 			var pos token.Pos
-			allInstrs(fn, func(_ *ssa.BasicBlock, _ int, in ssa.Instruction) {
-				w := false
-				switch x := in.(type) {
-				case *ssa.Store:
-					if fa, ok := x.Addr.(*ssa.FieldAddr); ok && (fieldOfAddr(fa) == A.negAuthentication || fieldOfAddr(fa) == A.negNegotiatedAuth) {
-						w = true
+			for fr, call := cs.fr, cs.call; fr != nil; fr, call = fr.up, fr.call {
+				allInstrs(fr.fn, func(_ *ssa.BasicBlock, _ int, in ssa.Instruction) {
+					w := false
+					switch x := in.(type) {
+					case *ssa.Store:
+						if fa, ok := x.Addr.(*ssa.FieldAddr); ok && (fieldOfAddr(fa) == A.negAuthentication || fieldOfAddr(fa) == A.negNegotiatedAuth) {
+							w = true
+						}
+					case *ssa.Call:
+						if g := calleeFn(x); g != nil && g != phase && writers[g] {
+							w = true
+						}
 					}
-				case *ssa.Call:
-					if g := calleeFn(x); g != nil && g != phase && writers[g] {
-						w = true
+					if w && findPath(after(call), Target{Instr: in}, nil) != nil {
+						bad, pos = c03InstrLabel(in), in.Pos()
 					}
-				}
-				if w && findPath(after(cs), Target{Instr: in}, nil) != nil {
-					bad, pos = c03InstrLabel(in), in.Pos()
-				}
-			})
+				})
+			}
 			c.Check(bad == "", rule, fnName(fn)+"#after-"+phase.Name()+"-no-rewrite", "nothing reassigns Authentication / NegotiatedAuth after the authentication phase", "after the authentication phase "+bad+" can reassign negotiation.Authentication / NegotiatedAuth", pos)
 		}
+		c.MinCount(rule, "calls of "+phase.Name()+" in "+fnName(fn), nPhase, 1)
 	}
-	c.MinCount(rule, "checks", n, 6)
 }
 
 // c03FieldWriters: package-security functions that (transitively, static calls) store to one of the fields.
@@ -663,8 +746,10 @@ func c03r6(c *Ctx) {
 		})
 	}
 	c.Ok(rule, "authentication-methods#errors", fmt.Sprintf("%d calls returning an error in %d functions reachable from performAuthentication; %d discarded only where no success return can follow (best-effort notices on error paths); none discarded on a path to success apart from those reported", nCalls, len(fns), nBestEffort), A.perfAuth.Pos())
-	c.MinCount(rule, "functions reachable from performAuthentication", len(fns), 20)
-	c.MinCount(rule, "error-returning module calls inspected", nCalls, 60)
+	// (structural minimum: performAuthentication dispatches to at least one method implementation,
+	// and something in there can fail; not today's counts)
+	c.MinCount(rule, "functions reachable from performAuthentication", len(fns), 2)
+	c.MinCount(rule, "error-returning module calls inspected", nCalls, 1)
 }
 
 // ---------------------------------------------------------------------------
@@ -673,20 +758,23 @@ func c03r6(c *Ctx) {
 // c03AuthedAttr: the attribute under which storeSession records negotiation.Authentication.
 func c03AuthedAttr(A *c03Anchors, fn *ssa.Function) (string, token.Pos) {
 	for name, calls := range c03AttrCalls(fn, c03IsSet, nil) {
-		for _, call := range calls {
-			args := callArgs(call)
+		if name == c03UnresolvedAttr {
+			continue
+		}
+		for _, cs := range calls {
+			args := callArgs(cs.call)
 			if len(args) < 3 {
 				continue
 			}
 			all := true
-			os := origins(fn, stripConv(args[2]))
+			os := c03OriginsF(cs.fr, stripConv(args[2]), nil)
 			for _, o := range os {
-				if _, ok := c03LoadOf(o, A.negAuthentication); !ok {
+				if _, ok := c03LoadOf(o.v, A.negAuthentication); !ok {
 					all = false
 				}
 			}
 			if all && len(os) > 0 {
-				return name, call.Pos()
+				return name, cs.call.Pos()
 			}
 		}
 	}
@@ -694,13 +782,16 @@ func c03AuthedAttr(A *c03Anchors, fn *ssa.Function) (string, token.Pos) {
 }
 
 // c03IsCachedAuthed: every origin of the boolean v is the constant false or result #0 of
-// EvaluateAttrBool(<entry>.Policy(), attr); at least one origin is the latter.
-func c03IsCachedAuthed(fn *ssa.Function, v ssa.Value, attr string, policy *ssa.Function, depth int) bool {
+// EvaluateAttrBool(<entry>.Policy(), attr); at least one origin is the latter. Origins are followed
+// through value helpers (c03OriginsF): `authed := sessionWasAuthenticated(entry)`.
+func c03IsCachedAuthed(fr *c03Frame, v ssa.Value, attr string, policy *ssa.Function, depth int) bool {
 	if depth > 3 {
 		return false
 	}
+	stop := func(g *ssa.Function) bool { return g == policy }
 	n := 0
-	for _, o := range origins(fn, stripConv(v)) {
+	for _, lf := range c03OriginsF(fr, stripConv(v), stop) {
+		o := lf.v
 		if b, ok := constBool(o); ok && !b {
 			continue
 		}
@@ -710,8 +801,8 @@ func c03IsCachedAuthed(fn *ssa.Function, v ssa.Value, attr string, policy *ssa.F
 				args := callArgs(call)
 				name, _ := constString(args[1])
 				recvOK := false
-				for _, ro := range origins(fn, args[0]) {
-					if rc, ri := originCall(ro); rc != nil && ri == 0 && calleeFn(rc) == policy {
+				for _, ro := range c03OriginsF(lf.fr, args[0], stop) {
+					if rc, ri := originCall(ro.v); rc != nil && ri == 0 && calleeFn(rc) == policy {
 						recvOK = true
 					} else {
 						recvOK = false
@@ -725,16 +816,18 @@ func c03IsCachedAuthed(fn *ssa.Function, v ssa.Value, attr string, policy *ssa.F
 			}
 		}
 		// a load of negotiation.Authentication of a negotiation built in this function whose every
-		// store is itself such a value
+		// store (in the function or a helper it hands the negotiation to) is itself such a value
 		if base, f, ok := fieldRead(o); ok && f.Name() == "Authentication" {
 			if _, fresh := base.(*ssa.Alloc); fresh {
 				okAll, m := true, 0
-				for _, s := range c03StoresTo(fn, f) {
-					if fa := s.Addr.(*ssa.FieldAddr); fa.X != base {
-						continue
+				for _, s := range c03ReachStores(lf.fr, f, nil) {
+					if s.fr == lf.fr {
+						if fa := s.st.Addr.(*ssa.FieldAddr); fa.X != base {
+							continue
+						}
 					}
 					m++
-					if !c03IsCachedAuthed(fn, s.Val, attr, policy, depth+1) {
+					if !c03IsCachedAuthed(s.fr, s.st.Val, attr, policy, depth+1) {
 						okAll = false
 					}
 				}
@@ -752,7 +845,7 @@ func c03IsCachedAuthed(fn *ssa.Function, v ssa.Value, attr string, policy *ssa.F
 func c03r7(c *Ctx) {
 	const rule = "C03-R7"
 	defer c03Timed(c, rule)()
-	c.Doc(rule, "T-MPT + writer/reader agreement: both session writers record negotiation.Authentication under one attribute; in resumeSession and handleSessionResumption every path to a success return passes an edge on which the local Authentication level differs from REQUIRED or an edge on which the cached session's recorded flag (EvaluateAttrBool of that attribute on entry.Policy()) is true; and the Authentication flag each of them reports is that recorded value")
+	c.Doc(rule, "T-MPT + writer/reader agreement: both session writers record negotiation.Authentication under one attribute; in resumeSession and handleSessionResumption every path to a success return passes an edge on which the local Authentication level differs from REQUIRED or an edge on which the cached session's recorded flag (EvaluateAttrBool of that attribute on entry.Policy()) is true; and the Authentication flag each of them reports is that recorded value Where a check, store or call is looked for, same-module helpers are followed to depth 4 (boolean predicates and value helpers with parameters mapped to arguments, same-package error-returning and effect helpers), and conditions materialised in local booleans are resolved per incoming value.")
 	A := c.handshakeAnchors(rule)
 	if !A.ok {
 		return
@@ -772,38 +865,25 @@ func c03r7(c *Ctx) {
 	if attr == "" {
 		return
 	}
-	n := 0
 	for _, fn := range []*ssa.Function{A.resumeC, A.resumeS} {
-		// reported flag = recorded value
-		stores := c03StoresTo(fn, A.negAuthentication)
+		// reported flag = recorded value (the store may sit in a helper the negotiation is handed to)
+		stores := c03ReachStores(c03Root(fn), A.negAuthentication, func(g *ssa.Function) bool {
+			return g == A.setup || g == A.negotiate || g == A.hClient || g == A.hServer || g == A.fullClient || g == A.fullServer
+		})
 		okStores := len(stores) > 0
 		for _, s := range stores {
-			if !c03IsCachedAuthed(fn, s.Val, attr, policy, 0) {
+			if !c03IsCachedAuthed(s.fr, s.st.Val, attr, policy, 0) {
 				okStores = false
 			}
 		}
 		c.Check(okStores, rule, fnName(fn)+"#Authentication=recorded", "the reported Authentication is the value recorded with the cached session", "the resumed negotiation's Authentication is not restored from the cached session's "+attr+" record (it stays false / is taken from elsewhere)", fn.Pos())
-		mp := &c03MustPass{c: c, pkgOf: A.setup, edges: func(f *ssa.Function) []Edge {
-			notReq, _ := A.levelEdges(f, A.cfgAuthentication, A.roleOf(f))
-			out := notReq
-			for _, b := range f.Blocks {
-				ifi := blockIf(b)
-				if ifi == nil {
-					continue
-				}
-				a := condAtom(ifi.Cond)
-				if a.Op != token.ILLEGAL || !c03IsCachedAuthed(f, a.X, attr, policy, 0) {
-					continue
-				}
-				if a.Neg {
-					out = append(out, Edge{b, 1})
-				} else {
-					out = append(out, Edge{b, 0})
-				}
+		mp := &c03MustPass{c: c, pkgOf: A.setup, atom: func(fr *c03Frame, a Atom) (bool, bool) {
+			if t, f := A.notRequiredAtom(fr, a, A.cfgAuthentication); t || f {
+				return t, f
 			}
-			return out
+			return a.Op == token.ILLEGAL && c03IsCachedAuthed(fr, a.X, attr, policy, 0), false
 		}}
-		n += mp.check(rule, fn, "", "a test that the local Authentication level is not REQUIRED or that the cached session was an authenticated one")
+		k := mp.check(rule, fn, "", "a test that the local Authentication level is not REQUIRED or that the cached session was an authenticated one")
+		c.MinCount(rule, "success returns of "+fnName(fn), k, 1)
 	}
-	c.MinCount(rule, "success returns of the resumption functions", n, 2)
 }
